@@ -120,6 +120,19 @@ def feval(n, xi, flags=(1., 1., 1., 1.), der=0):
     return out * fl[:, None]
 
 
+def feval_abs(n, xi, flags=(1., 1., 1., 1.), der=0):
+    """sum_k |coef_k| |xi|^k for f_0..f_{n-1}: the floating-point conditioning scale of evaluating them."""
+    xi = np.abs(np.atleast_1d(np.asarray(xi, dtype=float)))
+    M = np.abs(_fcoefs(NMAX, der)[:n])
+    out = np.zeros((n, xi.size))
+    for j in range(M.shape[1] - 1, -1, -1):
+        out = out * xi[None, :] + M[:, j][:, None]
+    fl = np.ones(n)
+    for k in range(min(4, n)):
+        fl[k] = abs(flags[k])
+    return out * fl[:, None]
+
+
 def feval_exact(i, xi, der=0):
     p = pderiv(poly(i), der) if der else poly(i)
     x = Fr(xi)
